@@ -7,6 +7,7 @@ CONSTANTS
   ReadMode = "single"
   Wiring = "tee_below_bufio"
   Progs <- MCProgs
+  Deliv <- AnyDeliv
 VIEW View
 INVARIANTS TypeOK ReplayComplete FailJustified SuccessExact ReadAheadBounded
 PROPERTY Terminates
